@@ -279,7 +279,7 @@ def generate(name, expanded_src=None):
                 ret = e.opts.get('ret')
                 rename = e.opts.get('as')
                 vis = '' if ' for ' in (' ' + e.impl + ' ') and e.impl not in ('-', '') else 'pub '
-                text, _ = rsx.normalise_fn(raw, cfg, rename=rename, ret_name=ret, vis=vis, revloops=e.opts.get('revloops'))
+                text, _ = rsx.normalise_fn(raw, cfg, rename=rename, ret_name=ret, vis=vis, revloops=e.opts.get('revloops'), lebytes=bool(e.opts.get('lebytes')))
                 if e.trusted:
                     # signature + spec only; body replaced by unimplemented!()
                     toks = rsx.tokenize(text)
@@ -298,7 +298,7 @@ def generate(name, expanded_src=None):
                     woven = rsx.weave(text, spec=e.spec if e.spec.strip() else None, hints=e.hints)
                     # erasure check
                     got = rsx.erase_tokens(woven)
-                    want_toks = rsx.source_tokens(raw, cfg, rename=rename, ret_name=ret, vis=vis, revloops=e.opts.get('revloops'))
+                    want_toks = rsx.source_tokens(raw, cfg, rename=rename, ret_name=ret, vis=vis, revloops=e.opts.get('revloops'), lebytes=bool(e.opts.get('lebytes')))
                     if got != want_toks:
                         u.erasure_ok = False
                         # find first difference
@@ -328,6 +328,25 @@ def generate(name, expanded_src=None):
                 # visibility normalised to `pub` (same transformation as for functions)
                 txt = txt.replace("pub(crate)", "pub")
                 txt = re.sub(r'^(\s*)const ', r'\1pub const ', txt)
+                if len(parts) > 3 and 'pubfields' in parts[3:]:
+                    # private fields would make the datatype opaque to specifications: named fields and the
+                    # single field of a tuple struct get `pub` (visibility only; types and order unchanged)
+                    txt = re.sub(r'(?m)^(\s+)([A-Za-z_]\w*\s*:)', r'\1pub \2', txt)
+                    txt = re.sub(r'(struct\s+\w+(?:<[^>]*>)?\s*\()\s*(?!pub)', r'\1pub ', txt)
+                if len(parts) > 3 and 'w64args' in parts[3:]:
+                    # const NAME: T = T::w64be(l3,l2,l1,l0) / w64le(l0,l1,l2,l3), T in Montgomery representation: the value is
+                    # opaque to Verus (compile-time conversion); the literal limbs are exported as a spec function
+                    # NAME_w64() == l0 + l1*2^64 + l2*2^128 + l3*2^192 so that contracts name the integer the source names
+                    mm = re.search(r'\b\w+::(w64be|w64le)\(([^()]*)\)', txt)
+                    if not mm:
+                        raise rsx.SliceError("const %s: no w64be/w64le initialiser" % parts[2])
+                    a = [x.strip() for x in mm.group(2).split(',') if x.strip()]
+                    if len(a) != 4 or not all(re.match(r'^[0-9A-Fa-fxX_]+(u64)?$', x) for x in a):
+                        raise rsx.SliceError("const %s: w64be/w64le arguments are not four literals" % parts[2])
+                    if mm.group(1) == 'w64be':
+                        a = a[::-1]
+                    txt = "#[verifier::external_body] " + rsx.MARK + "\n" + txt.lstrip() + "\n" + \
+                        "pub open spec fn %s_w64() -> int { v4(%s) } %s\n" % (parts[2], ", ".join(a), rsx.MARK)
                 if len(parts) > 3 and 'opaque' in parts[3:]:
                     # the initialiser calls an exec fn (compile-time evaluation): keep the text, make the value opaque to Verus
                     txt = "#[verifier::external_body] " + rsx.MARK + "\n" + txt.lstrip()
